@@ -288,4 +288,905 @@ theorem memo_transparent_empty {κ ν : Type} [DecidableEq κ] (f : κ → ν) (
     Memo.run f {} ks = ks.map f :=
   memo_transparent f {} (by intro kv h; simp at h) ks
 
+/-! ## B. pruning: ancestor chains and own pixels
+
+`ancestors f i` is the list of identifiers of the proper ancestors of the structure `i`, nearest
+first.  The proofs go through the *table* of a forest (`tabL`): the prefix-order list of all pairs
+(identifier, chain); with distinct identifiers `ancestors` is a lookup in it, and membership in
+the table does not depend on the order of children, which a prune step changes. -/
+
+mutual
+def ancT (i : Nat) (acc : List Nat) : Tree → Option (List Nat)
+  | .node j _ ks => if j = i then some acc else ancL i (j :: acc) ks
+def ancL (i : Nat) (acc : List Nat) : List Tree → Option (List Nat)
+  | [] => none
+  | t :: ts => (ancT i acc t).orElse fun _ => ancL i acc ts
+end
+def ancestors (f : List Tree) (i : Nat) : List Nat := (ancL i [] f).getD []
+
+mutual
+def tabT (acc : List Nat) : Tree → List (Nat × List Nat)
+  | .node j _ ks => (j, acc) :: tabL (j :: acc) ks
+def tabL (acc : List Nat) : List Tree → List (Nat × List Nat)
+  | [] => []
+  | t :: ts => tabT acc t ++ tabL acc ts
+end
+
+theorem anc_eq_find (i : Nat) :
+    (∀ t : Tree, ∀ acc, ancT i acc t = ((tabT acc t).find? (fun e => e.1 == i)).map (·.2)) ∧
+    (∀ l : List Tree, ∀ acc, ancL i acc l = ((tabL acc l).find? (fun e => e.1 == i)).map (·.2)) := by
+  apply Tree.forest_induction
+  · intro j o ks ih acc
+    rw [ancT, tabT, List.find?_cons]
+    by_cases h : j = i
+    · simp [h]
+    · have hb : (j == i) = false := by simpa using h
+      simp [h, hb, ih]
+  · intro acc; simp [ancL, tabL]
+  · intro t ts iht ihts acc
+    rw [ancL, tabL, List.find?_append, iht, ihts]
+    cases ((tabT acc t).find? (fun e => e.1 == i)) <;> simp
+
+theorem tab_keys :
+    (∀ t : Tree, ∀ acc, (tabT acc t).map (·.1) = (pre t).map Tree.id) ∧
+    (∀ l : List Tree, ∀ acc, (tabL acc l).map (·.1) = (preL l).map Tree.id) := by
+  apply Tree.forest_induction
+  · intro j o ks ih acc
+    simp [tabT, pre, ih, Tree.id]
+  · intro acc; simp [tabL, preL]
+  · intro t ts iht ihts acc
+    simp [tabL, preL, iht, ihts]
+
+theorem find_key {β : Type} {l : List (Nat × β)} (h : (l.map (·.1)).Nodup) (i : Nat) (r : β) :
+    (l.find? (fun e => e.1 == i)).map (·.2) = some r ↔ (i, r) ∈ l := by
+  induction l with
+  | nil => simp
+  | cons e l ih =>
+    rw [List.map_cons, List.nodup_cons] at h
+    rw [List.find?_cons]
+    by_cases he : e.1 = i
+    · simp only [he, beq_self_eq_true, Option.map_some, Option.some.injEq, List.mem_cons]
+      constructor
+      · intro e2; left; rw [← e2, ← he]
+      · rintro (e2 | e2)
+        · rw [← e2]
+        · exact absurd (List.mem_map.mpr ⟨_, e2, rfl⟩) (he ▸ h.1)
+    · have : (e.1 == i) = false := by simpa using he
+      simp only [this, List.mem_cons]
+      rw [ih h.2]
+      constructor
+      · exact Or.inr
+      · rintro (e2 | e2)
+        · exact absurd (by rw [← e2]) he
+        · exact e2
+
+theorem ancL_iff {l : List Tree} (h : IdsNodup l) (i : Nat) (acc r : List Nat) :
+    ancL i acc l = some r ↔ (i, r) ∈ tabL acc l := by
+  rw [(anc_eq_find i).2 l acc]
+  exact find_key (by rw [(tab_keys).2 l acc]; exact h) i r
+
+theorem ancestors_eq {f : List Tree} (h : IdsNodup f) {i : Nat} {r : List Nat}
+    (hm : (i, r) ∈ tabL [] f) : ancestors f i = r := by
+  unfold ancestors; rw [(ancL_iff h i [] r).mpr hm]; rfl
+
+theorem tab_has {f : List Tree} {s : Tree} (hs : s ∈ preL f) (acc : List Nat) :
+    ∃ r, (s.id, r) ∈ tabL acc f := by
+  have : s.id ∈ (tabL acc f).map (·.1) := by
+    rw [(tab_keys).2 f acc]; exact List.mem_map_of_mem hs
+  obtain ⟨e, he, h1⟩ := List.mem_map.mp this
+  exact ⟨e.2, by rw [← h1]; exact he⟩
+
+theorem tab_key_mem {f : List Tree} {acc : List Nat} {i : Nat} {r : List Nat}
+    (h : (i, r) ∈ tabL acc f) : i ∈ (preL f).map Tree.id := by
+  rw [← (tab_keys).2 f acc]; exact List.mem_map.mpr ⟨_, h, rfl⟩
+
+theorem tabL_append (acc : List Nat) (a b : List Tree) :
+    tabL acc (a ++ b) = tabL acc a ++ tabL acc b := by
+  induction a with
+  | nil => simp [tabL]
+  | cons t ts ih => simp [tabL, ih]
+
+theorem tabT_eq (acc : List Nat) (t : Tree) : tabT acc t = (t.id, acc) :: tabL (t.id :: acc) t.kids := by
+  cases t; simp [tabT, Tree.id, Tree.kids]
+
+theorem tabL_cons (acc : List Nat) (t : Tree) (ts : List Tree) :
+    tabL acc (t :: ts) = tabT acc t ++ tabL acc ts := by simp [tabL]
+
+/-- shifting the accumulator -/
+theorem tab_shift :
+    (∀ t : Tree, ∀ acc i r, (i, r) ∈ tabT acc t ↔ ∃ c, (i, c) ∈ tabT [] t ∧ r = c ++ acc) ∧
+    (∀ l : List Tree, ∀ acc i r, (i, r) ∈ tabL acc l ↔ ∃ c, (i, c) ∈ tabL [] l ∧ r = c ++ acc) := by
+  apply Tree.forest_induction
+  · intro j o ks ih acc i r
+    simp only [tabT, List.mem_cons, Prod.mk.injEq]
+    rw [ih (j :: acc)]
+    constructor
+    · rintro (⟨rfl, rfl⟩ | ⟨c, hc, rfl⟩)
+      · exact ⟨[], Or.inl ⟨rfl, rfl⟩, rfl⟩
+      · exact ⟨c ++ [j], Or.inr ((ih [j] i _).mpr ⟨c, hc, rfl⟩), by simp⟩
+    · rintro ⟨c, (⟨rfl, rfl⟩ | hc), rfl⟩
+      · exact Or.inl ⟨rfl, rfl⟩
+      · obtain ⟨c', hc', rfl⟩ := (ih [j] i c).mp hc
+        exact Or.inr ⟨c', hc', by simp⟩
+  · intro acc i r; simp [tabL]
+  · intro t ts iht ihts acc i r
+    simp only [tabL, List.mem_append]
+    rw [iht acc, ihts acc]
+    constructor
+    · rintro (⟨c, hc, rfl⟩ | ⟨c, hc, rfl⟩)
+      · exact ⟨c, Or.inl hc, rfl⟩
+      · exact ⟨c, Or.inr hc, rfl⟩
+    · rintro ⟨c, (hc | hc), rfl⟩
+      · exact Or.inl ⟨c, hc, rfl⟩
+      · exact Or.inr ⟨c, hc, rfl⟩
+
+/-- the entries of a chain are identifiers of the forest (or of the accumulator) -/
+theorem tab_content :
+    (∀ t : Tree, ∀ acc i r, (i, r) ∈ tabT acc t → ∀ a ∈ r, a ∈ acc ∨ a ∈ (pre t).map Tree.id) ∧
+    (∀ l : List Tree, ∀ acc i r, (i, r) ∈ tabL acc l → ∀ a ∈ r, a ∈ acc ∨ a ∈ (preL l).map Tree.id) := by
+  apply Tree.forest_induction
+  · intro j o ks ih acc i r h a ha
+    simp only [tabT, List.mem_cons, Prod.mk.injEq] at h
+    rcases h with ⟨_, rfl⟩ | h
+    · exact Or.inl ha
+    · rcases ih (j :: acc) i r h a ha with h' | h'
+      · rcases List.mem_cons.mp h' with rfl | h'
+        · right; simp [pre, Tree.id]
+        · exact Or.inl h'
+      · right; simp only [pre, List.map_cons, List.mem_cons]; exact Or.inr h'
+  · intro acc i r h; simp [tabL] at h
+  · intro t ts iht ihts acc i r h a ha
+    simp only [tabL, List.mem_append] at h
+    simp only [preL, List.map_append, List.mem_append]
+    rcases h with h | h
+    · rcases iht acc i r h a ha with h' | h'
+      · exact Or.inl h'
+      · exact Or.inr (Or.inl h')
+    · rcases ihts acc i r h a ha with h' | h'
+      · exact Or.inl h'
+      · exact Or.inr (Or.inr h')
+
+/-! ### one prune step and the ancestor chains -/
+
+theorem filter_tab_self {S : Nat → Bool} {l : List Tree} {acc : List Nat} {x : Nat} {r : List Nat}
+    (h : (x, r) ∈ tabL acc l) (hacc : ∀ a ∈ acc, S a = true)
+    (hl : ∀ y ∈ (preL l).map Tree.id, S y = true) : r.filter S = r := by
+  rw [List.filter_eq_self]
+  intro a ha
+  rcases (tab_content).2 l acc x r h a ha with h' | h'
+  · exact hacc a h'
+  · exact hl a h'
+
+/-- a dissolved structure `m` between `i` and the children `ks` -/
+theorem tab_skip {S : Nat → Bool} {ks : List Tree} {acc : List Nat} {i m z : Nat} {r' : List Nat}
+    (h : (z, r') ∈ tabL (i :: acc) ks) (hm : S m = false) (hi : S i = true)
+    (hacc : ∀ a ∈ acc, S a = true) (hl : ∀ y ∈ (preL ks).map Tree.id, S y = true) :
+    ∃ r, (z, r) ∈ tabL (m :: i :: acc) ks ∧ r' = r.filter S := by
+  obtain ⟨c, hc, rfl⟩ := (tab_shift).2 ks (i :: acc) z r' |>.mp h
+  refine ⟨c ++ m :: i :: acc, ((tab_shift).2 ks _ z _).mpr ⟨c, hc, rfl⟩, ?_⟩
+  have h1 : c.filter S = c := filter_tab_self hc (by simp) hl
+  have h2 : acc.filter S = acc := List.filter_eq_self.mpr hacc
+  simp [List.filter_append, h1, h2, hm, hi]
+
+/-- what a prune step does to the chains of the structures of `t'` -/
+def AncStep (t t' : Tree) : Prop :=
+  ∀ (S : Nat → Bool) (acc : List Nat), (∀ a ∈ acc, S a = true) →
+    (∀ x ∈ (pre t').map Tree.id, S x = true) →
+    (∀ x ∈ (pre t).map Tree.id, x ∉ (pre t').map Tree.id → S x = false) →
+    ∀ x r', (x, r') ∈ tabT acc t' → ∃ r, (x, r) ∈ tabT acc t ∧ r' = r.filter S
+
+theorem ancStepL (a b : List Tree) (k k' : Tree) (hk : AncStep k k')
+    (hnd : IdsNodup (a ++ k :: b)) (S : Nat → Bool) (acc : List Nat)
+    (hacc : ∀ a ∈ acc, S a = true)
+    (h1 : ∀ x ∈ (preL (a ++ k' :: b)).map Tree.id, S x = true)
+    (h0 : ∀ x ∈ (preL (a ++ k :: b)).map Tree.id, x ∉ (preL (a ++ k' :: b)).map Tree.id → S x = false)
+    (x : Nat) (r' : List Nat) (h : (x, r') ∈ tabL acc (a ++ k' :: b)) :
+    ∃ r, (x, r) ∈ tabL acc (a ++ k :: b) ∧ r' = r.filter S := by
+  simp only [preL_append, PruneP.preL_cons, List.map_append, List.mem_append] at h1 h0
+  unfold IdsNodup at hnd
+  simp only [preL_append, PruneP.preL_cons, List.map_append] at hnd
+  have hnd1 := List.nodup_append.mp hnd
+  have hnd2 := List.nodup_append.mp hnd1.2.1
+  simp only [tabL_append, tabL_cons, List.mem_append] at h ⊢
+  rcases h with h | h | h
+  · exact ⟨r', Or.inl h, (filter_tab_self h hacc (fun y hy => h1 y (Or.inl hy))).symm⟩
+  · obtain ⟨r, hr, e⟩ := hk S acc hacc (fun y hy => h1 y (Or.inr (Or.inl hy))) (by
+      intro y hy hy'
+      apply h0 y (Or.inr (Or.inl hy))
+      rintro (h' | h' | h')
+      · exact hnd1.2.2 y h' y (List.mem_append_left _ hy) rfl
+      · exact hy' h'
+      · exact hnd2.2.2 y hy y h' rfl) x r' h
+    exact ⟨r, Or.inr (Or.inl hr), e⟩
+  · exact ⟨r', Or.inr (Or.inr h), (filter_tab_self h hacc (fun y hy => h1 y (Or.inr (Or.inr hy)))).symm⟩
+
+theorem pstep_ids_sub {t t' : Tree} (h : PStep t t') :
+    ∀ x ∈ (pre t').map Tree.id, x ∈ (pre t).map Tree.id := by
+  intro x hx
+  obtain ⟨s', hs', rfl⟩ := List.mem_map.mp hx
+  obtain ⟨s, hs, e, _⟩ := h.reg s' hs'
+  exact List.mem_map.mpr ⟨s, hs, e⟩
+
+theorem pruneIn_ancStep (ic : Tree → Tree → Bool) (t t' : Tree) (h : pruneIn ic t = some t')
+    (hids : IdsNodup [t]) : AncStep t t' := by
+  revert hids
+  refine pruneIn_ind ic (fun t t' => IdsNodup [t] → AncStep t t') ?_ ?_ t t' h
+  · intro P k hk hleaf hids S acc hacc h1 h0 z r' hz
+    rcases pruneAt_cases P k hk hids with ⟨i, o, a, b, rfl, _, e⟩ | ⟨i, o, x, y, rfl, e⟩
+    · rw [e] at hz h1 h0
+      rw [hleaf, List.append_nil] at hz h1 h0
+      simp only [tabT, List.mem_cons, Prod.mk.injEq] at hz ⊢
+      simp only [pre, List.map_cons, List.mem_cons, PruneP.id_node] at h1
+      rcases hz with ⟨rfl, rfl⟩ | hz
+      · exact ⟨r', Or.inl ⟨rfl, rfl⟩, (List.filter_eq_self.mpr hacc).symm⟩
+      · refine ⟨r', Or.inr ?_, ?_⟩
+        · simp only [tabL_append, tabL_cons, List.mem_append] at hz ⊢
+          rcases hz with hz | hz
+          · exact Or.inl hz
+          · exact Or.inr (Or.inr hz)
+        · refine (filter_tab_self hz ?_ (fun y hy => h1 y (Or.inr hy))).symm
+          intro a' ha'
+          rcases List.mem_cons.mp ha' with rfl | ha'
+          · exact h1 _ (Or.inl rfl)
+          · exact hacc a' ha'
+    · rw [e] at hz h1 h0
+      unfold IdsNodup at hids
+      simp only [pre, preL, pre_eq x, pre_eq y, List.map_cons, List.map_append,
+        List.append_nil, PruneP.id_node, List.cons_append, preL_append] at hids h0 h1
+      have hids2 := hids
+      simp only [List.nodup_cons, List.nodup_append, List.mem_cons, List.mem_append, not_or] at hids2
+      simp only [tabT, tabL, tabT_eq _ x, tabT_eq _ y, List.mem_cons, Prod.mk.injEq, tabL_append,
+        List.mem_append, List.append_nil, List.cons_append] at hz ⊢
+      have hi : S i = true := h1 i (by simp)
+      have hacc' : ∀ a ∈ acc, S a = true := hacc
+      rcases hz with ⟨rfl, rfl⟩ | hz | hz
+      · exact ⟨r', Or.inl ⟨rfl, rfl⟩, (List.filter_eq_self.mpr hacc).symm⟩
+      · have hx : S x.id = false := by
+          apply h0 x.id (by simp)
+          intro hmem
+          simp only [List.mem_cons, List.mem_append] at hmem
+          grind
+        obtain ⟨r, hr, e⟩ := tab_skip hz hx hi hacc' (fun y hy => h1 y (by simp [hy]))
+        exact ⟨r, Or.inr (Or.inr (Or.inl hr)), e⟩
+      · have hy : S y.id = false := by
+          apply h0 y.id (by simp)
+          intro hmem
+          simp only [List.mem_cons, List.mem_append] at hmem
+          grind
+        obtain ⟨r, hr, e⟩ := tab_skip hz hy hi hacc' (fun y hy => h1 y (by simp [hy]))
+        exact ⟨r, Or.inr (Or.inr (Or.inr (Or.inr hr))), e⟩
+  · intro i o a k k' b hp ih hids S acc hacc h1 h0 z r' hz
+    have hk := ih (idsNodup_kid hids)
+    have hsub := pstep_ids_sub (pruneIn_pstep ic k k' hp (idsNodup_kid hids))
+    have hnd : IdsNodup (a ++ k :: b) := by
+      unfold IdsNodup at hids ⊢
+      rw [PruneP.preL_singleton, pre] at hids
+      exact (List.nodup_cons.mp hids).2
+    have hi : i ∉ (preL (a ++ k :: b)).map Tree.id := by
+      unfold IdsNodup at hids
+      rw [PruneP.preL_singleton, pre] at hids
+      exact (List.nodup_cons.mp hids).1
+    simp only [pre, List.map_cons, List.mem_cons, PruneP.id_node] at h1 h0
+    simp only [tabT, List.mem_cons, Prod.mk.injEq] at hz ⊢
+    rcases hz with ⟨rfl, rfl⟩ | hz
+    · exact ⟨r', Or.inl ⟨rfl, rfl⟩, (List.filter_eq_self.mpr hacc).symm⟩
+    · obtain ⟨r, hr, e⟩ := ancStepL a b k k' hk hnd S (i :: acc)
+        (by
+          intro a' ha'
+          rcases List.mem_cons.mp ha' with rfl | ha'
+          · exact h1 _ (Or.inl rfl)
+          · exact hacc a' ha')
+        (fun y hy => h1 y (Or.inr hy))
+        (by
+          intro y hy hy'
+          apply h0 y (Or.inr hy)
+          rintro (rfl | h')
+          · exact hi hy
+          · exact hy' h') z r' hz
+      exact ⟨r, Or.inr hr, e⟩
+
+/-- **one prune step removes identifiers from every ancestor chain and changes nothing else**:
+the parent of a surviving structure is its nearest surviving former ancestor. -/
+theorem pruneForest_ancestors (ic : Tree → Tree → Bool) (f f' : List Tree)
+    (h : pruneForest ic [] f = some f') (hids : IdsNodup f) :
+    ∀ s' ∈ Tree.preL f', ancestors f' s'.id
+      = (ancestors f s'.id).filter (fun a => a ∈ (Tree.preL f').map Tree.id) := by
+  intro s' hs'
+  have hids' := pruneForest_idsNodup ic f f' h hids
+  obtain ⟨r', hr'⟩ := tab_has hs' []
+  obtain ⟨a, t, t', b, rfl, rfl, hp⟩ := pruneForest_some ic f [] f' h
+  simp only [List.nil_append] at *
+  have hk := pruneIn_ancStep ic t t' hp (idsNodup_sub hids)
+  have hsub := pstep_ids_sub (pruneIn_pstep ic t t' hp (idsNodup_sub hids))
+  obtain ⟨r, hr, e⟩ := ancStepL a b t t' hk hids
+    (fun x => decide (x ∈ (Tree.preL (a ++ t' :: b)).map Tree.id)) [] (by simp)
+    (by intro x hx; simpa using hx) (by intro x _ hx; simpa using hx) s'.id r' hr'
+  rw [ancestors_eq hids' hr', ancestors_eq hids hr, e]
+
+theorem ancestors_sub {f : List Tree} (i : Nat) :
+    ∀ a ∈ ancestors f i, a ∈ (preL f).map Tree.id := by
+  intro a ha
+  unfold ancestors at ha
+  cases h : ancL i [] f with
+  | none => rw [h] at ha; simp at ha
+  | some r =>
+    rw [h] at ha
+    rw [(anc_eq_find i).2 f []] at h
+    obtain ⟨e, he, rfl⟩ := Option.map_eq_some_iff.mp h
+    have hm := List.mem_of_find?_eq_some he
+    rcases (tab_content).2 f [] e.1 e.2 hm a (by simpa using ha) with h' | h'
+    · simp at h'
+    · exact h'
+
+theorem pruneLoop_ids_sub (ic : Tree → Tree → Bool) (n : Nat) (f : List Tree) (hids : IdsNodup f) :
+    ∀ x ∈ (preL (pruneLoop ic n f)).map Tree.id, x ∈ (preL f).map Tree.id := by
+  intro x hx
+  obtain ⟨s', hs', rfl⟩ := List.mem_map.mp hx
+  obtain ⟨s, hs, e, _⟩ := pruneLoop_regions ic n f hids s' hs'
+  exact List.mem_map.mpr ⟨s, hs, e⟩
+
+/-- **after pruning, the parent of every surviving structure is its nearest surviving former
+ancestor** (the whole chain of ancestors is the former chain with the removed ones left out) -/
+theorem pruneLoop_ancestors (ic : Tree → Tree → Bool) (n : Nat) (f : List Tree) (hids : IdsNodup f) :
+    ∀ s' ∈ Tree.preL (pruneLoop ic n f), ancestors (pruneLoop ic n f) s'.id
+      = (ancestors f s'.id).filter (fun a => a ∈ (Tree.preL (pruneLoop ic n f)).map Tree.id) := by
+  have hrefl : ∀ s' ∈ Tree.preL f, ancestors f s'.id
+      = (ancestors f s'.id).filter (fun a => a ∈ (Tree.preL f).map Tree.id) := by
+    intro s' _
+    symm
+    rw [List.filter_eq_self]
+    intro a ha
+    simpa using ancestors_sub _ a ha
+  induction n generalizing f with
+  | zero => exact hrefl
+  | succ n ih =>
+    rw [pruneLoop]
+    cases hp : pruneForest ic [] f with
+    | none => exact hrefl
+    | some f' =>
+      have hids' := pruneForest_idsNodup ic f f' hp hids
+      intro s'' hs''
+      simp only
+      rw [ih f' hids' (fun s' _ => by
+        symm; rw [List.filter_eq_self]; intro a ha; simpa using ancestors_sub _ a ha) s'' hs'']
+      obtain ⟨s', hs', e, _⟩ := pruneLoop_regions ic n f' hids' s'' hs''
+      have := pruneForest_ancestors ic f f' hp hids s' hs'
+      rw [e] at this
+      rw [this, List.filter_filter]
+      apply List.filter_congr
+      intro a _
+      have hsub := pruneLoop_ids_sub ic n f' hids' a
+      by_cases ha : a ∈ (preL (pruneLoop ic n f')).map Tree.id
+      · simp [ha, hsub ha]
+      · simp [ha]
+
+/-! ### own pixels: one step -/
+
+/-- one prune step on a prefix listing: the structures `rem` (children of `P`) disappear, their
+own pixels go to `P`, nothing else changes -/
+def Step1 (L L' : List Tree) : Prop :=
+  ∃ P ∈ L, ∃ rem : List Tree, (∀ r ∈ rem, r ∈ P.kids) ∧
+    (L'.map Tree.id ++ rem.map Tree.id).Perm (L.map Tree.id) ∧ P.id ∈ L'.map Tree.id ∧
+    ∀ s' ∈ L', ∃ s ∈ L, s.id = s'.id ∧
+      s'.own = s.own ++ (if s.id = P.id then rem.flatMap Tree.own else [])
+
+theorem step1_frame (A B L L' : List Tree) (h : Step1 L L')
+    (hnd : ((A ++ L ++ B).map Tree.id).Nodup) : Step1 (A ++ L ++ B) (A ++ L' ++ B) := by
+  obtain ⟨P, hP, rem, hrem, hperm, hPid, hown⟩ := h
+  refine ⟨P, by simp [hP], rem, hrem, ?_, by simp [hPid], ?_⟩
+  · rw [List.perm_iff_count] at hperm ⊢
+    intro x
+    have := hperm x
+    simp only [List.map_append, List.count_append] at this ⊢
+    omega
+  · simp only [List.map_append] at hnd
+    have h1 := List.nodup_append.mp hnd
+    have h2 := List.nodup_append.mp h1.1
+    intro s' hs'
+    simp only [List.mem_append] at hs' ⊢
+    rcases hs' with (hs' | hs') | hs'
+    · refine ⟨s', Or.inl (Or.inl hs'), rfl, ?_⟩
+      have : s'.id ≠ P.id := h2.2.2 _ (List.mem_map_of_mem hs') _ (List.mem_map_of_mem hP)
+      simp [this]
+    · obtain ⟨s, hs, e, ho⟩ := hown s' hs'
+      exact ⟨s, Or.inl (Or.inr hs), e, ho⟩
+    · refine ⟨s', Or.inr hs', rfl, ?_⟩
+      have : s'.id ≠ P.id := fun e =>
+        h1.2.2 _ (List.mem_append_right _ (List.mem_map_of_mem hP)) _ (List.mem_map_of_mem hs') e.symm
+      simp [this]
+
+theorem step1_cons (t t' : Tree) (L L' : List Tree) (h : Step1 L L') (hid : t'.id = t.id)
+    (hown : t'.own = t.own) (hnd : t.id ∉ L.map Tree.id) : Step1 (t :: L) (t' :: L') := by
+  obtain ⟨P, hP, rem, hrem, hperm, hPid, hown'⟩ := h
+  refine ⟨P, List.mem_cons_of_mem _ hP, rem, hrem, ?_, ?_, ?_⟩
+  · simp only [List.map_cons, List.cons_append, hid]; exact hperm.cons _
+  · simp [hPid]
+  · intro s' hs'
+    rcases List.mem_cons.mp hs' with rfl | hs'
+    · refine ⟨t, List.mem_cons_self, hid.symm, ?_⟩
+      have : t.id ≠ P.id := fun e => hnd (e ▸ List.mem_map_of_mem hP)
+      simp [this, hown]
+    · obtain ⟨s, hs, e, ho⟩ := hown' s' hs'
+      exact ⟨s, List.mem_cons_of_mem _ hs, e, ho⟩
+
+theorem pruneIn_step1 (ic : Tree → Tree → Bool) (t t' : Tree) (h : pruneIn ic t = some t')
+    (hids : IdsNodup [t]) : Step1 (pre t) (pre t') := by
+  revert hids
+  refine pruneIn_ind ic (fun t t' => IdsNodup [t] → Step1 (pre t) (pre t')) ?_ ?_ t t' h
+  · intro P k hk hleaf hids
+    unfold IdsNodup at hids
+    rw [PruneP.preL_singleton] at hids
+    rcases pruneAt_cases P k hk (by unfold IdsNodup; rw [PruneP.preL_singleton]; exact hids)
+      with ⟨i, o, a, b, rfl, _, e⟩ | ⟨i, o, x, y, rfl, e⟩
+    · rw [e, hleaf, List.append_nil]
+      refine ⟨_, PruneP.self_mem_pre _, [k], by simp, ?_, by simp [pre], ?_⟩
+      · simp only [pre, preL_append, pre_eq k, hleaf, preL]
+        rw [List.perm_iff_count]; intro z
+        simp only [List.map_append, List.map_cons, List.map_nil, List.count_append, List.count_cons,
+          List.count_nil, List.cons_append, PruneP.id_node]
+        omega
+      · simp only [pre, preL_append, PruneP.preL_cons, List.map_cons, List.map_append,
+          PruneP.id_node, List.nodup_cons, List.mem_append, List.mem_map, not_or] at hids
+        intro s' hs'
+        simp only [pre, List.mem_cons, preL_append, List.mem_append] at hs'
+        rcases hs' with rfl | hs' | hs'
+        · exact ⟨_, PruneP.self_mem_pre _, rfl, by simp⟩
+        · refine ⟨s', ?_, rfl, ?_⟩
+          · simp only [pre, List.mem_cons, preL_append, List.mem_append]
+            exact Or.inr (Or.inl hs')
+          · have : s'.id ≠ i := fun e => hids.1.1 ⟨s', hs', e⟩
+            simp [this]
+        · refine ⟨s', ?_, rfl, ?_⟩
+          · simp only [pre, List.mem_cons, preL_append, List.mem_append, PruneP.preL_cons]
+            exact Or.inr (Or.inr (Or.inr hs'))
+          · have : s'.id ≠ i := fun e => hids.1.2.2 ⟨s', hs', e⟩
+            simp [this]
+    · rw [e]
+      refine ⟨_, PruneP.self_mem_pre _, [x, y], by simp, ?_, by simp [pre], ?_⟩
+      · simp only [pre, preL, preL_append, pre_eq x, pre_eq y]
+        rw [List.perm_iff_count]; intro z
+        simp only [List.map_append, List.map_cons, List.map_nil, List.count_append, List.count_cons,
+          List.count_nil, List.cons_append, List.append_nil, PruneP.id_node]
+        omega
+      · simp only [pre, preL, pre_eq x, pre_eq y, List.map_cons, List.map_append, List.append_nil,
+          PruneP.id_node, List.nodup_cons, List.mem_append, List.mem_cons, List.mem_map, not_or,
+          List.cons_append] at hids
+        intro s' hs'
+        simp only [pre, List.mem_cons, preL_append, List.mem_append] at hs'
+        rcases hs' with rfl | hs' | hs'
+        · exact ⟨_, PruneP.self_mem_pre _, rfl, by simp⟩
+        · refine ⟨s', ?_, rfl, ?_⟩
+          · simp only [pre, preL, pre_eq x, List.mem_cons, List.mem_append, List.cons_append]
+            exact Or.inr (Or.inr (Or.inl hs'))
+          · have : s'.id ≠ i := fun e => hids.1.2.1 ⟨s', hs', e⟩
+            simp [this]
+        · refine ⟨s', ?_, rfl, ?_⟩
+          · simp only [pre, preL, pre_eq x, pre_eq y, List.mem_cons, List.mem_append,
+              List.cons_append, List.append_nil]
+            exact Or.inr (Or.inr (Or.inr (Or.inr hs')))
+          · have : s'.id ≠ i := fun e => hids.1.2.2.2 ⟨s', hs', e⟩
+            simp [this]
+  · intro i o a k k' b hp ih hids
+    have hk := ih (idsNodup_kid hids)
+    unfold IdsNodup at hids
+    rw [PruneP.preL_singleton, pre] at hids
+    have hnd := List.nodup_cons.mp hids
+    simp only [pre, preL_append, PruneP.preL_cons, PruneP.id_node] at hnd ⊢
+    refine step1_cons _ _ _ _ ?_ rfl rfl hnd.1
+    have := step1_frame (preL a) (preL b) _ _ hk (by simpa [List.append_assoc] using hnd.2)
+    simpa [List.append_assoc] using this
+
+theorem pruneForest_step1 (ic : Tree → Tree → Bool) (f f' : List Tree)
+    (h : pruneForest ic [] f = some f') (hids : IdsNodup f) : Step1 (preL f) (preL f') := by
+  obtain ⟨a, t, t', b, rfl, rfl, hp⟩ := pruneForest_some ic f [] f' h
+  have hk := pruneIn_step1 ic t t' hp (idsNodup_sub hids)
+  unfold IdsNodup at hids
+  simp only [List.nil_append, preL_append, PruneP.preL_cons] at hids ⊢
+  have := step1_frame (preL a) (preL b) _ _ hk (by simpa [List.append_assoc] using hids)
+  simpa [List.append_assoc] using this
+
+/-! ### structure of the chains -/
+
+/-- every chain is the accumulator, or starts with a structure whose chain is the rest -/
+theorem tab_closure :
+    (∀ t : Tree, ∀ acc i r, (i, r) ∈ tabT acc t →
+        r = acc ∨ ∃ j r0, r = j :: r0 ∧ (j, r0) ∈ tabT acc t) ∧
+    (∀ l : List Tree, ∀ acc i r, (i, r) ∈ tabL acc l →
+        r = acc ∨ ∃ j r0, r = j :: r0 ∧ (j, r0) ∈ tabL acc l) := by
+  apply Tree.forest_induction
+  · intro j o ks ih acc i r h
+    simp only [tabT, List.mem_cons, Prod.mk.injEq] at h ⊢
+    rcases h with ⟨_, rfl⟩ | h
+    · exact Or.inl rfl
+    · rcases ih (j :: acc) i r h with rfl | ⟨j', r0, rfl, h'⟩
+      · exact Or.inr ⟨j, acc, rfl, Or.inl ⟨rfl, rfl⟩⟩
+      · exact Or.inr ⟨j', r0, rfl, Or.inr h'⟩
+  · intro acc i r h; simp [tabL] at h
+  · intro t ts iht ihts acc i r h
+    simp only [tabL, List.mem_append] at h ⊢
+    rcases h with h | h
+    · rcases iht acc i r h with rfl | ⟨j', r0, rfl, h'⟩
+      · exact Or.inl rfl
+      · exact Or.inr ⟨j', r0, rfl, Or.inl h'⟩
+    · rcases ihts acc i r h with rfl | ⟨j', r0, rfl, h'⟩
+      · exact Or.inl rfl
+      · exact Or.inr ⟨j', r0, rfl, Or.inr h'⟩
+
+/-- the chain of an ancestor is the rest of the chain -/
+theorem tab_suffix (l : List Tree) (pre : List Nat) :
+    ∀ (i j : Nat) (rest : List Nat), (i, pre ++ j :: rest) ∈ tabL [] l → (j, rest) ∈ tabL [] l := by
+  induction pre with
+  | nil =>
+    intro i j rest h
+    rcases (tab_closure).2 l [] i _ h with h' | ⟨j', r0, e, h'⟩
+    · simp at h'
+    · simp only [List.nil_append, List.cons.injEq] at e
+      rw [e.1, e.2]; exact h'
+  | cons p pre ih =>
+    intro i j rest h
+    rcases (tab_closure).2 l [] i _ h with h' | ⟨j', r0, e, h'⟩
+    · simp at h'
+    · simp only [List.cons_append, List.cons.injEq] at e
+      rw [← e.2] at h'
+      exact ih j' j rest h'
+
+/-- the chain of a child is its parent followed by the parent's chain -/
+theorem tab_kid :
+    (∀ t : Tree, ∀ acc (P c : Tree), P ∈ pre t → c ∈ P.kids →
+        ∃ r, (P.id, r) ∈ tabT acc t ∧ (c.id, P.id :: r) ∈ tabT acc t) ∧
+    (∀ l : List Tree, ∀ acc (P c : Tree), P ∈ preL l → c ∈ P.kids →
+        ∃ r, (P.id, r) ∈ tabL acc l ∧ (c.id, P.id :: r) ∈ tabL acc l) := by
+  apply Tree.forest_induction
+  · intro j o ks ih acc P c hP hc
+    simp only [pre, List.mem_cons] at hP
+    simp only [tabT, List.mem_cons, Prod.mk.injEq]
+    rcases hP with rfl | hP
+    · refine ⟨acc, Or.inl ⟨rfl, rfl⟩, Or.inr ?_⟩
+      simp only [PruneP.kids_node] at hc
+      obtain ⟨a, b, rfl⟩ := List.append_of_mem hc
+      simp [tabL_append, tabL_cons, tabT_eq _ c, PruneP.id_node]
+    · obtain ⟨r, h1, h2⟩ := ih (j :: acc) P c hP hc
+      exact ⟨r, Or.inr h1, Or.inr h2⟩
+  · intro acc P c hP; simp [preL] at hP
+  · intro t ts iht ihts acc P c hP hc
+    simp only [preL, List.mem_append] at hP
+    simp only [tabL, List.mem_append]
+    rcases hP with hP | hP
+    · obtain ⟨r, h1, h2⟩ := iht acc P c hP hc
+      exact ⟨r, Or.inl h1, Or.inl h2⟩
+    · obtain ⟨r, h1, h2⟩ := ihts acc P c hP hc
+      exact ⟨r, Or.inr h1, Or.inr h2⟩
+
+theorem ancestors_kid {f : List Tree} (hids : IdsNodup f) {P c : Tree} (hP : P ∈ preL f)
+    (hc : c ∈ P.kids) : ancestors f c.id = P.id :: ancestors f P.id := by
+  obtain ⟨r, h1, h2⟩ := (tab_kid).2 f [] P c hP hc
+  rw [ancestors_eq hids h1, ancestors_eq hids h2]
+
+/-! ### the structure that receives the pixels -/
+
+/-- nearest surviving ancestor-or-self (`S` : survivors) -/
+def home (S : Nat → Bool) (f : List Tree) (j : Nat) : Option Nat := (j :: ancestors f j).find? S
+
+theorem find_filter_of_imp {S S' : Nat → Bool} (h : ∀ a, S a = true → S' a = true) (l : List Nat) :
+    (l.filter S').find? S = l.find? S := by
+  induction l with
+  | nil => rfl
+  | cons a l ih =>
+    rw [List.filter_cons]
+    by_cases h1 : S' a = true
+    · simp only [h1, if_true, List.find?_cons, ih]
+    · have h2 : S a = false := by
+        cases hS : S a with
+        | false => rfl
+        | true => exact absurd (h a hS) h1
+      have h1' : S' a = false := by simpa using h1
+      simp [h1', h2, ih]
+
+theorem find_append_of_none {S : Nat → Bool} {p : List Nat} (h : ∀ a ∈ p, S a = false) (l : List Nat) :
+    (p ++ l).find? S = l.find? S := by
+  induction p with
+  | nil => rfl
+  | cons a p ih =>
+    rw [List.cons_append, List.find?_cons, h a List.mem_cons_self]
+    exact ih (fun b hb => h b (List.mem_cons_of_mem _ hb))
+
+/-- `home` through an intermediate forest -/
+theorem home_comp {S' S'' : Nat → Bool} {f f' : List Tree} (hids : IdsNodup f)
+    (himp : ∀ a, S'' a = true → S' a = true)
+    (hanc : ∀ j, S' j = true → ancestors f' j = (ancestors f j).filter S')
+    {i : Nat} (hi : i ∈ (preL f).map Tree.id) :
+    home S'' f i = (home S' f i).bind (home S'' f') := by
+  obtain ⟨s, hs, rfl⟩ := List.mem_map.mp hi
+  obtain ⟨c, hc⟩ := tab_has hs []
+  have hci : ancestors f s.id = c := ancestors_eq hids hc
+  unfold home
+  rw [hci]
+  cases hf : (s.id :: c).find? S' with
+  | none =>
+    rw [List.find?_eq_none] at hf
+    simp only [Option.bind_none, List.find?_eq_none]
+    intro a ha hSa
+    exact hf a ha (himp a hSa)
+  | some j =>
+    obtain ⟨hSj, p, rest, e, hp⟩ := List.find?_eq_some_iff_append.mp hf
+    have hrest : ancestors f j = rest := by
+      cases p with
+      | nil =>
+        simp only [List.nil_append, List.cons.injEq] at e
+        rw [← e.1, hci, e.2]
+      | cons q p =>
+        simp only [List.cons_append, List.cons.injEq] at e
+        rw [e.2] at hc
+        exact ancestors_eq hids (tab_suffix f p s.id j rest hc)
+    simp only [Option.bind_some]
+    rw [hanc j hSj, hrest, e]
+    have h1 : (j :: rest.filter S') = (j :: rest).filter S' := by
+      rw [List.filter_cons]; simp [hSj]
+    rw [h1, find_filter_of_imp himp, find_append_of_none]
+    intro a ha
+    cases hS : S'' a with
+    | false => rfl
+    | true => have := hp a ha; simp [himp a hS] at this
+
+/-! ### generic list lemmas -/
+
+theorem filter_or_perm {α : Type} (p q : α → Bool) (l : List α)
+    (h : ∀ x ∈ l, ¬ (p x = true ∧ q x = true)) :
+    (l.filter (fun x => p x || q x)).Perm (l.filter p ++ l.filter q) := by
+  induction l with
+  | nil => simp
+  | cons a l ih =>
+    have ih' := ih (fun x hx => h x (List.mem_cons_of_mem _ hx))
+    have ha := h a List.mem_cons_self
+    cases hp : p a <;> cases hq : q a
+    · simpa [List.filter_cons, hp, hq] using ih'
+    · simp only [List.filter_cons, hp, hq, Bool.or_true, if_true, Bool.false_eq_true, if_false]
+      exact (ih'.cons a).trans List.perm_middle.symm
+    · simpa [List.filter_cons, hp, hq] using ih'
+    · exact absurd ⟨hp, hq⟩ ha
+
+theorem filter_id_eq {L : List Tree} (hnd : (L.map Tree.id).Nodup) {s : Tree} (hs : s ∈ L) :
+    L.filter (fun r => r.id == s.id) = [s] := by
+  induction L with
+  | nil => simp at hs
+  | cons a L ih =>
+    rw [List.map_cons, List.nodup_cons] at hnd
+    rcases List.mem_cons.mp hs with rfl | hs'
+    · rw [List.filter_cons]
+      simp only [beq_self_eq_true, if_true, List.cons.injEq, true_and, List.filter_eq_nil_iff,
+        beq_iff_eq]
+      intro r hr e
+      exact hnd.1 (e ▸ List.mem_map_of_mem hr)
+    · have : (a.id == s.id) = false := by
+        simp only [beq_eq_false_iff_ne, ne_eq]
+        intro e
+        exact hnd.1 (e ▸ List.mem_map_of_mem hs')
+      rw [List.filter_cons, this]
+      simpa using ih hnd.2 hs'
+
+theorem nodup_of_map {α β : Type} (f : α → β) {l : List α} (h : (l.map f).Nodup) : l.Nodup := by
+  unfold List.Nodup at *
+  rw [List.pairwise_map] at h
+  exact h.imp (fun hne e => hne (by rw [e]))
+
+theorem filter_mem_perm {L rem : List Tree} (hnd : (L.map Tree.id).Nodup)
+    (hsub : ∀ r ∈ rem, r ∈ L) (hrem : (rem.map Tree.id).Nodup) :
+    (L.filter (fun r => decide (r.id ∈ rem.map Tree.id))).Perm rem := by
+  refine (List.perm_ext_iff_of_nodup ((nodup_of_map _ hnd).filter _)
+    (nodup_of_map _ hrem)).mpr ?_
+  intro r
+  simp only [List.mem_filter, decide_eq_true_eq, List.mem_map]
+  constructor
+  · rintro ⟨hr, q, hq, e⟩
+    rw [← P8.eq_of_id_eq hnd (hsub q hq) hr e]; exact hq
+  · intro hr
+    exact ⟨hsub r hr, r, hr, rfl⟩
+
+/-- regrouping a double sum: if every `r' ∈ L'` collects the own pixels of the `r ∈ L` with
+`h r = r'.id`, then the `r'` selected by `Q` collect those of the `r` with `Q (h r)` -/
+theorem regroup_sum (L : List Tree) (h : Tree → Option Nat) (Q : Nat → Bool) :
+    ∀ (L' : List Tree), (L'.map Tree.id).Nodup →
+      (∀ r' ∈ L', r'.own.Perm ((L.filter (fun r => h r == some r'.id)).flatMap Tree.own)) →
+      ((L'.filter (fun r' => Q r'.id)).flatMap Tree.own).Perm
+        ((L.filter (fun r => (h r).any (fun j => decide (j ∈ L'.map Tree.id) && Q j))).flatMap
+          Tree.own) := by
+  intro L'
+  induction L' with
+  | nil => intro _ _; simp
+  | cons r' L' ih =>
+    intro hnd hown
+    rw [List.map_cons, List.nodup_cons] at hnd
+    have ih' := ih hnd.2 (fun x hx => hown x (List.mem_cons_of_mem _ hx))
+    have hsplit : L.filter (fun r => (h r).any (fun j => decide (j ∈ (r' :: L').map Tree.id) && Q j))
+        = L.filter (fun r => (h r == some r'.id && Q r'.id)
+            || (h r).any (fun j => decide (j ∈ L'.map Tree.id) && Q j)) := by
+      apply List.filter_congr
+      intro r _
+      cases hr : h r with
+      | none => simp
+      | some j =>
+        simp only [Option.any_some, List.map_cons, List.mem_cons, Bool.decide_or]
+        by_cases e : j = r'.id
+        · subst e; simp [hnd.1]
+        · simp [e]
+    rw [hsplit]
+    refine List.Perm.trans ?_ ((filter_or_perm _ _ L ?_).flatMap_right _).symm
+    · rw [List.flatMap_append, List.filter_cons]
+      cases hQ : Q r'.id with
+      | true =>
+        simp only [if_true, List.flatMap_cons, Bool.and_true]
+        exact List.Perm.append (hown r' List.mem_cons_self) ih'
+      | false =>
+        have : L.filter (fun _ => false) = [] := by
+          rw [List.filter_eq_nil_iff]; simp
+        simpa [this] using ih'
+    · intro r _ ⟨h1, h2⟩
+      simp only [Bool.and_eq_true, beq_iff_eq] at h1
+      rw [h1.1] at h2
+      simp only [Option.any_some, Bool.and_eq_true, decide_eq_true_eq] at h2
+      exact hnd.1 h2.1
+
+/-! ### own pixels after pruning -/
+
+/-- every structure of `F` owns the own pixels of the structures of `f` whose `home` it is -/
+def OwnT (S : Nat → Bool) (f F : List Tree) : Prop :=
+  ∀ s' ∈ preL F, s'.own.Perm
+    (((preL f).filter (fun r => home S f r.id == some s'.id)).flatMap Tree.own)
+
+theorem home_self {S : Nat → Bool} {f : List Tree} {j : Nat} (h : S j = true) :
+    home S f j = some j := by
+  unfold home; rw [List.find?_cons, h]
+
+theorem ownT_refl {S : Nat → Bool} {f : List Tree} (hids : IdsNodup f)
+    (hS : ∀ x ∈ (preL f).map Tree.id, S x = true) : OwnT S f f := by
+  intro s hs
+  have : (preL f).filter (fun r => home S f r.id == some s.id) = [s] := by
+    rw [← filter_id_eq hids hs]
+    apply List.filter_congr
+    intro r hr
+    rw [home_self (hS _ (List.mem_map_of_mem hr))]
+    simp
+  rw [this]; simp
+
+theorem ownT_step (ic : Tree → Tree → Bool) (f f' : List Tree)
+    (h : pruneForest ic [] f = some f') (hids : IdsNodup f) :
+    OwnT (fun a => decide (a ∈ (preL f').map Tree.id)) f f' := by
+  obtain ⟨P, hP, rem, hrem, hperm, hPid, hown⟩ := pruneForest_step1 ic f f' h hids
+  have hnd' : ((preL f').map Tree.id ++ rem.map Tree.id).Nodup := hperm.nodup_iff.mpr hids
+  have hnd'' := List.nodup_append.mp hnd'
+  intro s' hs'
+  obtain ⟨s, hs, e, ho⟩ := hown s' hs'
+  have hkey : ∀ r ∈ preL f,
+      (home (fun a => decide (a ∈ (preL f').map Tree.id)) f r.id == some s'.id)
+        = ((r.id == s.id) || (decide (r.id ∈ rem.map Tree.id) && (P.id == s.id))) := by
+    intro r hr
+    by_cases hr' : r.id ∈ (preL f').map Tree.id
+    · rw [home_self (by simpa using hr')]
+      have : r.id ∉ rem.map Tree.id := fun h2 => hnd''.2.2 _ hr' _ h2 rfl
+      simp [this, e]
+    · have hrem' : r.id ∈ rem.map Tree.id := by
+        have := hperm.mem_iff.mpr (List.mem_map_of_mem (f := Tree.id) hr)
+        rcases List.mem_append.mp this with h2 | h2
+        · exact absurd h2 hr'
+        · exact h2
+      obtain ⟨q, hq, hqe⟩ := List.mem_map.mp hrem'
+      have hanc := ancestors_kid hids hP (hrem q hq)
+      rw [hqe] at hanc
+      have hne : r.id ≠ s'.id := by
+        intro e2; apply hr'; rw [e2]; exact List.mem_map_of_mem hs'
+      unfold home
+      rw [hanc, List.find?_cons, List.find?_cons]
+      simp [hr', hPid, hrem', hne, e]
+  rw [List.filter_congr hkey]
+  refine List.Perm.trans ?_ ((filter_or_perm _ _ _ ?_).flatMap_right _).symm
+  · rw [List.flatMap_append, filter_id_eq hids hs, ho]
+    simp only [List.flatMap_cons, List.flatMap_nil, List.append_nil]
+    refine List.Perm.append_left _ ?_
+    by_cases hPs : s.id = P.id
+    · have hsub : ∀ r ∈ rem, r ∈ preL f := fun r hr =>
+        P8.pre_subset_preL hP r (PruneP.kid_mem_pre (hrem r hr))
+      have := filter_mem_perm hids hsub hnd''.2.1
+      simp only [hPs, if_true, beq_self_eq_true, Bool.and_true]
+      exact (this.flatMap_right _).symm
+    · have hne : (P.id == s.id) = false := by
+        simp only [beq_eq_false_iff_ne, ne_eq]; exact fun e2 => hPs e2.symm
+      have : (preL f).filter (fun _ => false) = [] := by
+        rw [List.filter_eq_nil_iff]; simp
+      simp [hPs, hne, this]
+  · intro r _ ⟨h1, h2⟩
+    simp only [beq_iff_eq, Bool.and_eq_true, decide_eq_true_eq] at h1 h2
+    exact hnd''.2.2 _ (by rw [h1, e]; exact List.mem_map_of_mem hs') _ h2.1 rfl
+
+theorem ownT_comp {S' S'' : Nat → Bool} {f f' F : List Tree} (hids : IdsNodup f)
+    (hids' : IdsNodup f')
+    (himp : ∀ a, S'' a = true → S' a = true)
+    (hS' : ∀ a, S' a = true → a ∈ (preL f').map Tree.id)
+    (hanc : ∀ j, S' j = true → ancestors f' j = (ancestors f j).filter S')
+    (h1 : OwnT S' f f') (h2 : OwnT S'' f' F) : OwnT S'' f F := by
+  intro s'' hs''
+  refine (h2 s'' hs'').trans ?_
+  have := regroup_sum (preL f) (fun r => home S' f r.id) (fun j => home S'' f' j == some s''.id)
+    (preL f') hids' h1
+  refine this.trans ?_
+  have hcongr : ∀ r ∈ preL f,
+      ((home S' f r.id).any (fun j => decide (j ∈ (preL f').map Tree.id)
+          && (home S'' f' j == some s''.id)))
+        = (home S'' f r.id == some s''.id) := by
+    intro r hr
+    rw [home_comp hids himp hanc (List.mem_map_of_mem hr)]
+    cases hh : home S' f r.id with
+    | none => simp
+    | some j =>
+      have hj : S' j = true := by
+        unfold home at hh; simpa using List.find?_some hh
+      have hm := hS' j hj
+      simp only [Option.bind_some, Option.any_some, hm, decide_true, Bool.true_and]
+  rw [List.filter_congr hcongr]
+
+theorem pruneLoop_ownT (ic : Tree → Tree → Bool) (n : Nat) (f : List Tree) (hids : IdsNodup f) :
+    OwnT (fun a => decide (a ∈ (preL (pruneLoop ic n f)).map Tree.id)) f (pruneLoop ic n f) := by
+  induction n generalizing f with
+  | zero => exact ownT_refl hids (by intro x hx; simpa [pruneLoop] using hx)
+  | succ n ih =>
+    rw [pruneLoop]
+    cases hp : pruneForest ic [] f with
+    | none => exact ownT_refl hids (by intro x hx; simpa using hx)
+    | some f' =>
+      have hids' := pruneForest_idsNodup ic f f' hp hids
+      simp only
+      refine ownT_comp (S' := fun a => decide (a ∈ (preL f').map Tree.id)) hids hids' ?_ ?_ ?_
+        (ownT_step ic f f' hp hids) (ih f' hids')
+      · intro a ha
+        simp only [decide_eq_true_eq] at ha ⊢
+        exact pruneLoop_ids_sub ic n f' hids' a ha
+      · intro a ha; simpa using ha
+      · intro j hj
+        simp only [decide_eq_true_eq] at hj
+        obtain ⟨s', hs', rfl⟩ := List.mem_map.mp hj
+        exact pruneForest_ancestors ic f f' hp hids s' hs'
+
+/-- **pixels of removed structures pass to the nearest surviving former ancestor**: the own pixels
+of a surviving structure are its former own pixels plus the own pixels of exactly those removed
+structures whose nearest surviving former ancestor it is. -/
+theorem pruneLoop_own_transfer (ic : Tree → Tree → Bool) (n : Nat) (f : List Tree)
+    (hids : IdsNodup f) :
+    ∀ s' ∈ Tree.preL (pruneLoop ic n f), ∃ s ∈ Tree.preL f, s.id = s'.id ∧
+      s'.own.Perm (s.own ++ ((Tree.preL f).filter (fun r =>
+        r.id ∉ (Tree.preL (pruneLoop ic n f)).map Tree.id ∧
+        (ancestors f r.id).find? (fun a => a ∈ (Tree.preL (pruneLoop ic n f)).map Tree.id)
+          = some s.id)).flatMap Tree.own) := by
+  intro s' hs'
+  obtain ⟨s, hs, e, _⟩ := pruneLoop_regions ic n f hids s' hs'
+  refine ⟨s, hs, e, ?_⟩
+  refine (pruneLoop_ownT ic n f hids s' hs').trans ?_
+  generalize hF : pruneLoop ic n f = F at hs' ⊢
+  have hkey : ∀ r ∈ preL f,
+      (home (fun a => decide (a ∈ (preL F).map Tree.id)) f r.id == some s'.id)
+        = ((r.id == s.id) || decide (r.id ∉ (preL F).map Tree.id ∧
+            (ancestors f r.id).find? (fun a => decide (a ∈ (preL F).map Tree.id)) = some s.id)) := by
+    intro r _
+    by_cases hr' : r.id ∈ (preL F).map Tree.id
+    · rw [home_self (by simpa using hr')]
+      simp [hr', e]
+    · have hne : r.id ≠ s'.id := by
+        intro e2; apply hr'; rw [e2]; exact List.mem_map_of_mem hs'
+      unfold home
+      rw [List.find?_cons]
+      have hb : (r.id == s'.id) = false := by simpa using hne
+      have h1 : decide (r.id ∈ (preL F).map Tree.id) = false := by simpa using hr'
+      simp only [h1, e, hb, Bool.false_or]
+      by_cases hx : (ancestors f r.id).find? (fun a => decide (a ∈ (preL F).map Tree.id))
+          = some s'.id
+      · simp only [hx, beq_self_eq_true, hr', not_false_eq_true, and_self, decide_true]
+      · have : ((ancestors f r.id).find? (fun a => decide (a ∈ (preL F).map Tree.id))
+            == some s'.id) = false := by simpa using hx
+        simp only [this, hx, and_false, decide_false]
+  rw [List.filter_congr hkey]
+  refine ((filter_or_perm _ _ _ ?_).flatMap_right _).trans ?_
+  · intro r _ ⟨h1, h2⟩
+    simp only [beq_iff_eq, decide_eq_true_eq] at h1 h2
+    apply h2.1; rw [h1, e]; exact List.mem_map_of_mem hs'
+  · rw [List.flatMap_append, filter_id_eq hids hs]
+    simp
+
 end P21
